@@ -51,6 +51,7 @@ def main(argv=None):
         return replay(args.prop, spec, args.replay)
 
     proof_problems = []
+    checker_note = None
     discharged = 0
     obligations = spec["theorems"] + spec.get("tables", [])
     # 1. Tie A
@@ -75,6 +76,11 @@ def main(argv=None):
             discharged = sum(1 for t in obligations if t in axioms and all(a in fw.ALLOWED_AXIOMS for a in axioms[t]))
             if not aok:
                 proof_problems.extend(probs)
+            if args.tier == "thorough":
+                cok, cdetail = fw.leanchecker(modules)
+                if not cok:
+                    proof_problems.append(cdetail)
+                checker_note = cdetail
         hits = fw.grep_forbidden()
         if hits:
             proof_problems.append("forbidden constructs: " + "; ".join(hits[:5]))
@@ -119,6 +125,7 @@ def main(argv=None):
     proof_notes = {
         "theorems": {t: axioms.get(t) for t in obligations},
         "problems": proof_problems,
+        "leanchecker": checker_note,
     }
     checker = f"cd lean && lake build {' '.join(spec['modules'])} && lake env lean <audit file with #print axioms for the {len(obligations)} obligations>"
     fw.write_evidence(
